@@ -178,7 +178,7 @@ def pathWhitespace (cfg : Config) (p : Bytes) : Option Bytes :=
   if p.any WSPACE.mem then
     if cfg.uriWhitespace = 4 then none                                                  -- URI_WHITESPACE_DENY
     else if cfg.uriWhitespace = 1 then some p                                           -- ALLOW
-    else if cfg.uriWhitespace = 2 then some ((Pct.escape Gen.Rfc1738.UNESCAPED p).take (MAX_URL - 1))   -- ENCODE; xstrncpy
+    else if cfg.uriWhitespace = 2 then some ((Pct.Rfc1738.escape Gen.Rfc1738.UNESCAPED p).take (MAX_URL - 1))   -- ENCODE; xstrncpy
     else if cfg.uriWhitespace = 3 then some (p.takeWhile fun c => !WSPACE.mem c)        -- CHOP: strcspn(urlpath, w_space)
     else some (p.filter fun c => !XSPACE.mem c)                                         -- STRIP (and default)
   else some p
@@ -295,7 +295,7 @@ def parseHier (cfg : Config) (ip : Bytes → IpClass) (proto : Nat) (image b : B
   -- login
   let (login, fh) :=
     match splitLast 64 hostRaw with
-    | some (l, h) => (Pct.unescape l, h)                              -- rfc1738_unescape(login)
+    | some (l, h) => (Pct.Rfc1738.unescape l, h)                              -- rfc1738_unescape(login)
     | none => ([], hostRaw)
   let hp := splitHostPort fh
   -- Bug 3183 sanity check, on the buffer as it is before the port is cut off
